@@ -95,7 +95,8 @@ static const char *ename(int e) {
   if (e >= 0 && e < NERR) return ERRN[e];
   snprintf(buf, sizeof buf, "ECONF_?%d", e); return buf;
 }
-static void jrc(FILE *o, int e) { fprintf(o, ",\"rc\":\"%s\"", ename(e)); }
+static __thread int last_rc = 0, skip_n = 0;
+static void jrc(FILE *o, int e) { last_rc = e; fprintf(o, ",\"rc\":\"%s\"", ename(e)); }
 
 /* ---------- token decoding ---------- */
 static const char *drv_root = "";   /* $DRV_ROOT: private scratch root of this driver process */
@@ -287,7 +288,9 @@ static int run_cmd(struct ctx *c, char **t, int nt) {
   const char *op = t[0];
   econf_err e;
 
-  if (!strcmp(op, "case")) { fprintf(o, "{\"op\":\"case\",\"id\":\"%s\"}\n", ARG(1) ? ARG(1) : ""); free(watch_case); watch_case = strdup(ARG(1) ? ARG(1) : ""); alarm(20); return 0; }
+  if (skip_n > 0 && strcmp(op, "case") && strcmp(op, "end")) { skip_n--; return 0; }
+  if (!strcmp(op, "onerr_skip")) { skip_n = last_rc ? atoi(ARG(1)) : 0; return 0; }   /* skip the next N commands if the last call failed */
+  if (!strcmp(op, "case")) { skip_n = 0; fprintf(o, "{\"op\":\"case\",\"id\":\"%s\"}\n", ARG(1) ? ARG(1) : ""); free(watch_case); watch_case = strdup(ARG(1) ? ARG(1) : ""); alarm(20); return 0; }
   if (!strcmp(op, "echo")) { fprintf(o, "{\"op\":\"echo\",\"id\":\"%s\"}\n", ARG(1) ? ARG(1) : ""); return 0; }
   if (!strcmp(op, "end")) { fprintf(o, "{\"op\":\"end\"}\n"); fflush(o); return 1; }
 
